@@ -12,7 +12,7 @@ CLAIMED = ["C01", "C02", "C03", "C04", "C05", "C06", "C07", "C08", "C09", "C10",
 
 # models integrated and reviewed; a claimed property is decided by its READY models only (models still
 # under construction serve only properties that are not yet claimed)
-READY = {"RoleTransfer", "Fungible", "Vault", "MulDiv", "Gates", "Access", "VaultBig", "Timelock", "TimelockController", "Rwa", "Nft", "Policies", "Merkle", "Verifiers", "FeeForwarder", "SmartAccount", "Royalties", "Identity", "Votes", "Registries", "WadOps", "SacAdmin", "MerkleVoting"}
+READY = {"RoleTransfer", "Fungible", "Vault", "MulDiv", "Gates", "Access", "VaultBig", "Timelock", "TimelockController", "Rwa", "Nft", "Policies", "Merkle", "Verifiers", "FeeForwarder", "SmartAccount", "Royalties", "Identity", "Votes", "Registries", "WadOps", "SacAdmin", "MerkleVoting", "Compliance"}
 
 MODELS, PROPS = {}, {}
 EXTRA_MODELS = set()   # models of behaviour beyond the listed properties (ids X01, X02, ...; `./check extra`)
